@@ -11,10 +11,13 @@ package main
 // guards and reductions applied by the caller are visible.
 
 import (
+	"fmt"
 	"go/ast"
-	"strings"
+	"go/token"
 	"go/types"
+	"os"
 	"sort"
+	"strings"
 
 	"golang.org/x/tools/go/ssa"
 	"golang.org/x/tools/go/ssa/ssautil"
@@ -172,7 +175,7 @@ func (w *World) inlinable0(fn *ssa.Function) bool {
 		}
 		for _, in := range b.Instrs {
 			switch in := in.(type) {
-			case *ssa.Defer, *ssa.Go, *ssa.Select, *ssa.RunDefers, *ssa.MakeClosure:
+			case *ssa.Defer, *ssa.Go, *ssa.Select, *ssa.RunDefers:
 				return false
 			case *ssa.If:
 				ifs++
@@ -355,6 +358,8 @@ func (w *World) initialValue(lv *T) (*T, bool) {
 	if w.globalInit == nil {
 		w.globalInit = map[string]*T{}
 		w.globalRO = map[string]bool{}
+		w.initMaps = map[string][]mapEntry{}
+		w.mapGlobal = map[string][]string{}
 		for _, pk := range []*ssa.Package{w.SLib, w.SCmd} {
 			initFn := pk.Func("init")
 			if initFn == nil || len(initFn.Blocks) == 0 {
@@ -378,6 +383,14 @@ func (w *World) initialValue(lv *T) (*T, bool) {
 			}
 			for k, v := range work[0].Heap {
 				w.globalInit[k] = v
+				if v.Op == "makemap" && strings.HasPrefix(k, "global:") {
+					w.mapGlobal[v.Key()] = append(w.mapGlobal[v.Key()], strings.TrimPrefix(k, "global:"))
+				}
+			}
+			for _, ev := range work[0].Events {
+				if ev.Kind == "mapupdate" && ev.LV != nil && ev.LV.Op == "makemap" {
+					w.initMaps[ev.LV.Key()] = append(w.initMaps[ev.LV.Key()], mapEntry{ev.Args[0], ev.Val})
+				}
 			}
 		}
 		// globals some function other than an initialiser stores to are not tables
@@ -474,4 +487,215 @@ func (w *World) privateCell(a *ssa.Alloc) bool {
 		}
 	}
 	return closures > 0
+}
+
+// paramFacts: what a parameter of an unexported function is known to equal on
+// entry because every call site passes the same expression of the other
+// arguments and of memory that is current at the call — e.g. n == len(s.list)
+// for results(n) always called as s.results(len(s.list)).  The fact is
+// expressed over the callee's own parameters, with memory reads at the
+// callee's entry epoch.
+func (w *World) paramFacts(fn *ssa.Function) map[string]*T {
+	if w.pfacts == nil {
+		w.pfacts = map[*ssa.Function]map[string]*T{}
+	}
+	if f, ok := w.pfacts[fn]; ok {
+		return f
+	}
+	w.pfacts[fn] = nil
+	if fn == nil || ast.IsExported(fn.Name()) || w.addrTaken[fn] || fn.Synthetic != "" || len(fn.Blocks) == 0 {
+		return nil
+	}
+	sites := map[ssa.Instruction]bool{}
+	for _, c := range w.Callers(fn) {
+		sites[c] = false
+	}
+	if len(sites) == 0 {
+		return nil
+	}
+	var calls []*Event
+	for _, root := range w.CallerRoots(fn) {
+		if root == fn {
+			return nil
+		}
+		paths, err := w.Paths(root)
+		if err != nil {
+			return nil
+		}
+		for _, p := range paths {
+			for k := range p.Events {
+				e := &p.Events[k]
+				if e.Kind == "call" && e.Callee == fn && len(e.Args) == len(fn.Params) && len(e.Cur) == len(e.Args) {
+					sites[e.Instr] = true
+					calls = append(calls, e)
+				}
+			}
+		}
+	}
+	for _, seen := range sites {
+		if !seen {
+			return nil // a call site in code that is not explored
+		}
+	}
+	facts := map[string]*T{}
+	for k, prm := range fn.Params {
+		var fact *T
+		for _, e := range calls {
+			t := w.inCalleeTerms(fn, e, k)
+			if t == nil || (fact != nil && fact.Key() != t.Key()) {
+				fact = nil
+				break
+			}
+			fact = t
+		}
+		if fact != nil {
+			facts[prm.Name()] = fact
+		}
+	}
+	w.pfacts[fn] = facts
+	return facts
+}
+
+// inCalleeTerms rewrites argument k of a call into the callee's vocabulary:
+// other arguments become the parameters they are bound to, memory reads must
+// be current at the call and rooted in those.  nil when that is not possible
+// or when the argument is just the parameter itself.
+func (w *World) inCalleeTerms(fn *ssa.Function, e *Event, k int) *T {
+	if !e.Cur[k] {
+		return nil
+	}
+	byKey := map[string]*T{}
+	for j, a := range e.Args {
+		if j != k && (a.Op == "p" || a.Op == "deref" || a.Op == "sel") {
+			byKey[a.Key()] = tparam(fn.Params[j].Name(), fn.Params[j].Type())
+		}
+	}
+	ok, bound := true, false
+	t := rewrite(e.Args[k], func(x *T) *T {
+		if p, has := byKey[x.Key()]; has {
+			bound = true
+			return p
+		}
+		switch x.Op {
+		case "c", "str", "len", "conv", "add", "sub", "mul", "sel", "deref", "elem":
+			return nil
+		}
+		ok = false
+		return x
+	})
+	if !ok || !bound {
+		return nil
+	}
+	// reads at the callee's entry epoch
+	var renum func(x *T) *T
+	renum = func(x *T) *T {
+		n := *x
+		n.k = ""
+		n.A = make([]*T, len(x.A))
+		for i, a := range x.A {
+			n.A[i] = renum(a)
+		}
+		if x.E != 0 {
+			n.E = 1
+		}
+		return &n
+	}
+	return renum(t)
+}
+
+type mapEntry struct{ key, val *T }
+
+// roInitMap: t is a map the package initialiser built with constant keys for
+// an unexported package variable that is only ever looked up, ranged over or
+// measured afterwards: its entries, as the initialiser stored them.
+func (w *World) roInitMap(t *T) ([]mapEntry, bool) {
+	if t == nil || t.Op != "makemap" {
+		return nil, false
+	}
+	w.initialValue(&T{Op: "global", S: "-"}) // make sure the tables are loaded
+	gs := w.mapGlobal[t.Key()]
+	if os.Getenv("GMARSLINT_DEBUG") != "" {
+		fmt.Println("roInitMap", t.Key(), gs, w.mapGlobal)
+	}
+	if len(gs) != 1 || !w.globalRO[gs[0]] {
+		if os.Getenv("GMARSLINT_DEBUG") != "" {
+			fmt.Println("roInitMap: not RO", gs)
+		}
+		return nil, false
+	}
+	if ro, ok := w.mapRO[gs[0]]; ok {
+		if !ro {
+			return nil, false
+		}
+		return w.initMaps[t.Key()], true
+	}
+	if w.mapRO == nil {
+		w.mapRO = map[string]bool{}
+	}
+	ro := true
+	for _, f := range w.Funcs {
+		for _, b := range f.Blocks {
+			for _, in := range b.Instrs {
+				var val ssa.Value
+				switch in := in.(type) {
+				case *ssa.UnOp:
+					if g, ok := in.X.(*ssa.Global); ok && in.Op == token.MUL && g.Name() == gs[0] {
+						val = in
+					}
+				case *ssa.MakeMap:
+					if f.Name() == "init" {
+						for _, r := range *in.Referrers() {
+							if st, ok := r.(*ssa.Store); ok {
+								if g, ok := st.Addr.(*ssa.Global); ok && g.Name() == gs[0] {
+									val = in
+								}
+							}
+						}
+					}
+				}
+				if val == nil {
+					continue
+				}
+				for _, r := range *val.Referrers() {
+					switch r := r.(type) {
+					case *ssa.Lookup:
+						if r.X != val {
+							ro = false
+						}
+					case *ssa.Range, *ssa.DebugRef:
+					case *ssa.MapUpdate:
+						if f.Name() != "init" || r.Map != val {
+							ro = false
+						}
+					case *ssa.Store:
+						if g, ok := r.Addr.(*ssa.Global); !ok || g.Name() != gs[0] || f.Name() != "init" {
+							ro = false
+						}
+					case *ssa.Call:
+						if bi, ok := r.Call.Value.(*ssa.Builtin); !ok || bi.Name() != "len" {
+							ro = false
+						}
+					default:
+						ro = false
+					}
+					if !ro && os.Getenv("GMARSLINT_DEBUG") != "" {
+						fmt.Printf("roInitMap: %s used by %T in %s\n", gs[0], r, f)
+					}
+				}
+			}
+		}
+	}
+	for _, en := range w.initMaps[t.Key()] {
+		if k := stripConv(en.key); !k.IsConst() && k.Op != "str" {
+			ro = false
+			if os.Getenv("GMARSLINT_DEBUG") != "" {
+				fmt.Println("roInitMap: key", k.Show())
+			}
+		}
+	}
+	w.mapRO[gs[0]] = ro
+	if !ro {
+		return nil, false
+	}
+	return w.initMaps[t.Key()], true
 }
